@@ -65,6 +65,9 @@ Cases ==
   \* counts that alias a small count when narrowed to 8 or 16 bits (256 + k, 65536 + k): a length is a machine word, never a byte
   \cup { [op |-> "wit", counts |-> cs, expect |-> GuardWit(cs)] : cs \in UNION { [1..k -> WideMix] : k \in 1..2 } }
   \cup { [op |-> "mask", t |-> t, len |-> len, expect |-> GuardMask(t, len)] : t \in 1..6, len \in Wide }
+  \cup { [op |-> "params", n |-> n, cap |-> cap, expect |-> GuardParams(n, cap)] : n \in {1, 2}, cap \in {255, 256, 257, 258, 260, 264, 512, 513, 1024} }
+  \cup { [op |-> "stmt", m |-> m, np |-> np, seed |-> sd, sval |-> 0, cap |-> 256, expect |-> GuardStmt(m, np, sd, 256)] :
+           m \in {255, 256, 257, 258, 260}, np \in {1, 2, 4, 255, 256, 257, 258, 260}, sd \in BOOLEAN }
   \cup { [op |-> "commit", t |-> t, b |-> b, expect |-> GuardCommit(t, b)] : t \in 1..6, b \in Wide }
 
 VARIABLES c, pc
